@@ -34,7 +34,8 @@ Inductive gen :=
 | GRaise (e : err)
 | GYieldD (d : nat) (k : outcome -> gen)
 | GYieldV (v : val) (k : outcome -> gen)
-| GLog (t : obs) (g : gen).
+| GLog (t : obs) (g : gen)
+| GCall (inner : gen) (k : outcome -> gen).   (* yields the Deferred of a nested inlineCallbacks call *)
 
 Inductive stmt :=
 | SAwait (d : nat)                  (* x = yield D[d]; log(x) *)
@@ -45,7 +46,9 @@ Inductive stmt :=
 | SSeq (a b : stmt)
 | STry (body handler : stmt)        (* try: body  except Exception as e: log(e); handler *)
 | SFinally (body fin : stmt)        (* try: body  finally: fin *)
-| SLoop (n : nat) (body : stmt).    (* for _ in range(n): body *)
+| SLoop (n : nat) (body : stmt)     (* for _ in range(n): body *)
+| SReturnValue (z : Z)              (* returnValue(z): raises _DefGen_Return, a BaseException no clause here catches *)
+| SCall (body : stmt).              (* x = yield inner(D, log), inner an @inlineCallbacks function with this body; log(x) *)
 
 (** meaning of a statement, in continuation-passing style: what to do on normal completion, on an exception,
     on return *)
@@ -62,6 +65,10 @@ Fixpoint denote (s : stmt) (kn : gen) (kr : err -> gen) (kret : val -> gen) : ge
       denote b (denote f kn kr kret) (fun e => denote f (kr e) kr kret) (fun v => denote f (kret v) kr kret)
   | SLoop n b =>
       (fix loop (m : nat) : gen := match m with O => kn | S m' => denote b (loop m') kr kret end) n
+  | SReturnValue z => kret (VInt z)
+  | SCall b =>
+      GCall (denote b (GReturn VNone) GRaise GReturn)
+            (fun o => match o with Val v => GLog (SawVal v) kn | Exc e => kr e end)
   end.
 
 (** a generator function whose body is [s] (falling off the end returns None) *)
@@ -114,6 +121,15 @@ Section Drive.
         if mem d (fired w)
         then drive (k (current w d)) (consume d w)     (* already fired: taken inside the loop *)
         else (Suspended d k, w)                         (* return; re-entered by _gotResultInlineCallbacks *)
+    | GCall inner k =>
+        (* the nested call runs its own driver until it finishes or suspends; in the latter case this driver
+           suspends on the nested call's Deferred, i.e. (transitively) on what the innermost driver waits on, and is
+           resumed with the nested function's outcome when that driver finishes *)
+        let '(st, w1) := drive inner w in
+        match st with
+        | Finished r => drive (k r) w1
+        | Suspended d k' => (Suspended d (fun o => GCall (k' o) k), w1)
+        end
     end.
 
   (** Deferred d fires (later firings of the same Deferred are ignored by the harness) *)
@@ -157,13 +173,14 @@ End Drive.
 Definition push (t : obs) (log : list obs) : list obs :=
   match t with Cancelled _ => log | _ => t :: log end.
 
-Fixpoint sync (out : nat -> outcome) (g : gen) (cons : list nat) (log : list obs) : outcome * list obs :=
+Fixpoint sync (out : nat -> outcome) (g : gen) (cons : list nat) (log : list obs) : outcome * list nat * list obs :=
   match g with
-  | GReturn v => (Val v, log)
-  | GRaise e => (Exc e, log)
+  | GReturn v => (Val v, cons, log)
+  | GRaise e => (Exc e, cons, log)
   | GLog t g' => sync out g' cons (push t log)
   | GYieldV v k => sync out (k (Val v)) cons log
   | GYieldD d k => sync out (k (if mem d cons then Val VNone else out d)) (d :: cons) log
+  | GCall inner k => let '(r, cons1, log1) := sync out inner cons log in sync out (k r) cons1 log1
   end.
 
 (** the function's own observations (canceller calls are the environment's, not the function's) *)
